@@ -255,6 +255,8 @@ func stdCompare(trace, state bool) func(ref, other *mon.Result, cs *mon.Case, g 
 		}
 		if a.Val != b.Val {
 			ds = append(ds, diff{"value", a.Val, b.Val})
+		} else if a.Shape != b.Shape && a.Panic == "" {
+			ds = append(ds, diff{"value-shape", a.Val + " with nil/empty structure " + a.Shape, b.Shape})
 		}
 		if a.ErrStr != b.ErrStr {
 			ds = append(ds, diff{"errors", a.ErrStr, b.ErrStr})
